@@ -20,10 +20,11 @@ MF(lb, op, v, r) == [t |-> "label", pred |-> [t |-> "m", label |-> lb, op |-> op
 RE1 == RCat(RLit(61), RLit(97))          \* =a
 RE3 == RCat(RLit(107), RCat(RLit(61), RAny))      \* k=.   (the same text is also used as a literal needle)
 RE2 == RAlt(RLit(97), RLit(55))          \* a|7
-FilterPoolFull == { LineF("eq", ReText(RE3), REps), LineF("re", ReText(RE3), RE3), LineF("eq", A, REps), LineF("neq", <<61, 98>>, REps), LineF("re", ReText(RE1), RE1), LineF("eq", <<>>, REps),
+RE4 == RCat(RBol, RCat(RLit(107), RCat(RLit(61), RCat(RLit(97), REol))))      \* ^k=a$ : an anchored literal is not a substring search
+FilterPoolFull == { LineF("eq", ReText(RE3), REps), LineF("re", ReText(RE3), RE3), LineF("eq", A, REps), LineF("neq", <<61, 98>>, REps), LineF("re", ReText(RE1), RE1), LineF("eq", <<>>, REps), LineF("re", ReText(RE4), RE4),
                     MF(APP, "eq", A, REps), MF(K, "neq", A, REps), MF(APP, "re", ReText(RE2), RE2), MF(N, "nre", ReText(RE2), RE2) }
 FilterPool == IF Pools = "full" THEN FilterPoolFull
-              ELSE { LineF("eq", ReText(RE3), REps), LineF("re", ReText(RE3), RE3), LineF("re", ReText(RE1), RE1), MF(APP, "eq", A, REps), MF(K, "neq", A, REps), MF(N, "nre", ReText(RE2), RE2) }
+              ELSE { LineF("eq", ReText(RE3), REps), LineF("re", ReText(RE3), RE3), LineF("re", ReText(RE1), RE1), LineF("re", ReText(RE4), RE4), MF(APP, "eq", A, REps), MF(K, "neq", A, REps), MF(N, "nre", ReText(RE2), RE2) }
 NegOf(f) == IF f.t = "line" THEN [f EXCEPT !.op = Neg(f.op)] ELSE [f EXCEPT !.pred.op = Neg(f.pred.op)]
 NumP(lb, op, lit, n) == [t |-> "num", label |-> lb, op |-> op, val |-> <<n, 1>>, lit |-> lit, re |-> REps]
 MP(lb, op, v) == [t |-> "m", label |-> lb, op |-> op, val |-> v, lit |-> <<>>, re |-> REps]
